@@ -19,7 +19,7 @@ same = [l for l in diff.splitlines() if l.startswith(('+', '-')) and not l.start
 print("worktree diff == patch.diff:", same)
 def run_demo():
     """returns (kind, rc, tail)"""
-    if os.path.exists(f"{out}/demo.sh") and (pid in ("C07", "C10") or not os.path.exists(f"{out}/demo_test.rs")):
+    if os.path.exists(f"{out}/demo.sh") and (pid in ("C07", "C10", "C11") or not os.path.exists(f"{out}/demo_test.rs")):
         arg = wt if pid == "C10" else f"{wt}/target/debug/grcov"
         rc, o = sh(["bash", f"{out}/demo.sh", arg, wt], cwd=wt)
         return "demo.sh", rc, o[-1500:]
